@@ -23,19 +23,6 @@ def judge(ctx):
     return []
 
 
-def projection(ctx):
-    ok, why = E.model_ok(ctx)
-    if not ok:
-        return ok, why
-    m = ctx.m
-    if m.get("model") == "ok" and ctx.ok:
-        if m.get("proj_directives_equal") is False:
-            return False, "directive lists / insertion points differ between model output and implementation output"
-        if m.get("model:directives_ok") != m.get("directives_ok"):
-            return False, "validator verdicts differ (model %s, implementation %s)" % (m.get("model:directives_ok"), m.get("directives_ok"))
-    return True, ""
-
-
 def nontrivial(ctx):
     return ctx.modified and (ctx.m.get("in_directives") or 0) > 0
 
